@@ -102,6 +102,14 @@ func runC05(op string, in []string) string {
 		}
 		return strings.Join([]string{um, st, sc, psc, wsc, fmt.Sprintf("A %d %s", alloc, b2s(stable))}, " ; ")
 	}
+	switch op {
+	case "wkt":
+		return runWKTHostile(in)
+	case "mvt":
+		return runMVTHostile(in)
+	case "gj":
+		return runGeoJSONHostile(in)
+	}
 	return "badop"
 }
 
@@ -111,6 +119,32 @@ func u32b(o binary.ByteOrder, v uint32) []byte { b := make([]byte, 4); o.PutUint
 
 func genC05(c *Ctx) {
 	r := c.Rng
+	// the other three decoder families: hostile streams built by the C04 / C03 / C02 plug-ins
+	// (exhaustive short families + structure-aware mutations), judged by their handlers
+	sub := *c
+	quota := c.Budget / 4
+	n := 0
+	genWKTHostile(c, func(in string) {
+		if n < quota || c.Tier == "thorough" {
+			c.Case("wkt", in)
+		}
+		n++
+	})
+	n = 0
+	genMVTHostile(c, func(in string) {
+		if n < quota || c.Tier == "thorough" {
+			c.Case("mvt", in)
+		}
+		n++
+	})
+	n = 0
+	genGeoJSONHostile(c, func(in string) {
+		if n < quota || c.Tier == "thorough" {
+			c.Case("gj", in)
+		}
+		n++
+	})
+	_ = sub
 	// exhaustive header family: order byte x type word x boundary counts x truncation point
 	counts := []uint32{0, 1, 2, 1 << 28, 1<<28 + 1, 1 << 31, 1<<32 - 1}
 	types := []uint32{0, 1, 2, 3, 4, 5, 6, 7, 8, 0x11, 1003, 0x20000001, 0x20000002, 0x20000003, 0x20000004, 0x20000005, 0x20000006, 0x20000007, 0x20000000, 0x80000001}
